@@ -482,7 +482,8 @@ func (e *Executor) GetTask(call *Call) (*ast.Task, error) {
 		if call.Vars == nil {
 			call.Vars = ast.NewVars()
 		}
-		call.Vars.Set("MATCH", ast.Var{Value: matchingTasks[0].Wildcards})
+		// the matched text is data, not a template: a live value is passed on as it is
+		call.Vars.Set("MATCH", ast.Var{Live: matchingTasks[0].Wildcards})
 		return matchingTasks[0].Task, nil
 	}
 
